@@ -67,6 +67,8 @@ class Agg:
             self.discards[r['discard']] = self.discards.get(r['discard'], 0) + 1
         if r.get('nt') and r.get('key') is not None:
             self.keys.add(r['key'] if isinstance(r['key'], str) and len(r['key']) == 16 else h64(r['key']))
+        for k in r.get('multi_keys') or ():
+            self.keys.add(k)
         if r.get('sample') is not None and len(self.samples) < want_samples:
             self.samples.append(jsonable(r['sample']))
         if r.get('v'):
